@@ -287,6 +287,22 @@ def _check_cbin(case):
             it = _iter_predicates(r, n, 'cbin-iter_chunks', cache=cache)
         finally:
             mr.close()
+        if (n + c + nt) % 3 == 0:
+            # opened by path, in a folder that holds other recordings with similar names
+            other = rec.values(n + 5, 2, np.int16, 4)
+            for stem in ('raw-1', 'raw.ap', 'raw_g0', 'ra'):
+                rec.write_cbin(d, other, sample_rate=1.0, chunk_duration=float(c + 2), stem=stem)
+            r2 = must_return('get_ephys_reader(path)', get_ephys_reader, path)
+            try:
+                _bounds_predicates(r2.chunk_bounds, [n], c, 'cbin-by-path-chunk_bounds')
+                _iter_predicates(r2, n, 'cbin-by-path-iter_chunks', cache=cache)
+                require(tuple(r2.shape) == (n, 2), 'shape of a .cbin opened by path next to '
+                        'similarly named recordings', key='cbin-by-path-shape', observed=r2.shape,
+                        expected=(n, 2))
+            finally:
+                mt2 = getattr(r2, 'reader', None)
+                if mt2 is not None:
+                    mt2.close()
     return it
 
 
